@@ -137,6 +137,8 @@ structure St where
   regchecks : Nat := 0
   hist : List (String × Nat) := []
   out : List String := []     -- messages of the current case (flushed at `end`)
+  printedKeys : List String := []
+  printed : List (String × Nat) := []
 
 def fuel : Nat := 100000
 
@@ -148,8 +150,15 @@ def rstName : ResetType → String | .sync => "S" | .async => "A" | .none => "N"
 
 def St.diff (s : St) (msg : String) : St :=
   { s with diffs := s.diffs + 1, out := s!"DIFF case={s.cur.id} {msg}" :: s.out }
+/-- every failure is counted; at most one message per (case, kind) and 20 per kind overall are printed -/
 def St.propfail (s : St) (msg : String) : St :=
-  { s with propfails := s.propfails + 1, out := s!"PROPFAIL case={s.cur.id} {msg}" :: s.out }
+  let kind := ((msg.splitOn " ").headD "")
+  let key := s!"{s.cur.id}/{kind}"
+  let n := (s.printed.lookup kind).getD 0
+  let s := { s with propfails := s.propfails + 1 }
+  if s.printedKeys.contains key || n ≥ 20 then s
+  else { s with out := s!"PROPFAIL case={s.cur.id} {msg}" :: s.out, printedKeys := key :: s.printedKeys,
+                printed := (kind, n+1) :: s.printed.filter (·.1 != kind) }
 
 def tree (c : Case) : ClockTree := c.clocks.toList
 
